@@ -72,7 +72,7 @@ def mutates_this(F, S, fn, nd):
             out.add(r)
         return out
     if nd["k"] in CALLS or nd["k"] in CTORS:
-        def root_item(t):
+        def root_item(t, elem=False):
             r = this_root(t)
             if r:
                 return ("this", r)
@@ -80,7 +80,7 @@ def mutates_this(F, S, fn, nd):
                 return ("this", "*")
             return None
         for it in S.call_writes(fn, nd, root_item):
-            if it[0] == "this":
+            if it[0] in ("this", "this@"):
                 out.add(it[1])
     return out
 
@@ -534,7 +534,9 @@ def r_guard_exact(F, engine, fn, specs, invariants=(), label=None):
     out = []
     inst0 = label or fn.qn
     gbs = guard_blocks(engine, fn)
-    targets = [lin_diff(x, y) for (x, y) in specs]      # X - Y  (> 0 means out of bounds)
+    strict_in = [len(sp) > 2 and bool(sp[2]) for sp in specs]   # in bounds iff X < Y (refusal Y <= X)
+    specs = [(sp[0], sp[1]) for sp in specs]
+    targets = [lin_diff(x, y) for (x, y) in specs]      # X - Y  (> 0 means out of bounds; >= 0 for strict specs)
     matched = set()
     for (b, cid, thr, nxt) in gbs:
         truth = [l for (t, l) in g.succ[b] if t == thr][0]
@@ -544,7 +546,7 @@ def r_guard_exact(F, engine, fn, specs, invariants=(), label=None):
         for f in cfs:
             inst = "%s#guard:%s" % (inst0, fmt_fact(f))
             req = "the refusal condition is exactly the out-of-bounds condition (%s)" % " or ".join(
-                "%s > %s" % (fmt_term(x), fmt_term(y)) for (x, y) in specs)
+                "%s %s %s" % (fmt_term(x), ">=" if st else ">", fmt_term(y)) for (x, y), st in zip(specs, strict_in))
             if f[0] not in ("<", "<="):
                 out.append(bad("R-GUARD", inst, fn.loc(cid), fn.qn, req, "refusal condition `%s` is not a bounds comparison" % fmt_fact(f)))
                 continue
@@ -563,7 +565,15 @@ def r_guard_exact(F, engine, fn, specs, invariants=(), label=None):
                 continue
             d = lin_diff(R, L)          # R - L > 0 (or >= 0) is refused
             hit = [i for i, t in enumerate(targets) if t == d]
-            if hit and f[0] == "<":
+            if hit and strict_in[hit[0]]:
+                if f[0] == "<=":
+                    matched.add(hit[0])
+                    out.append(ok("R-GUARD", inst, fn.loc(cid), fn.qn, req, "refuses exactly %s >= %s" % (fmt_term(specs[hit[0]][0]), fmt_term(specs[hit[0]][1]))))
+                else:
+                    out.append(bad("R-GUARD", inst, fn.loc(cid), fn.qn, req,
+                                   "off by one: `%s` accepts the out-of-bounds boundary value %s == %s" % (
+                                       fmt_fact(f), fmt_term(specs[hit[0]][0]), fmt_term(specs[hit[0]][1]))))
+            elif hit and f[0] == "<":
                 matched.add(hit[0])
                 out.append(ok("R-GUARD", inst, fn.loc(cid), fn.qn, req, "refuses exactly %s > %s" % (fmt_term(specs[hit[0]][0]), fmt_term(specs[hit[0]][1]))))
             elif hit:
